@@ -281,6 +281,89 @@ func registryScenario(name string, p int, outs ...int) vx.Scenario {
 	return vx.Scenario{Name: name, Body: body, Check: check, P: p, T: 0, SetBound: true}
 }
 
+// noBreakerScenario: one thread registers the name with NoBreakerFor while the others make their
+// FIRST calls on that name through the package-level entry points (a lookup that misses, then
+// creates and registers a real breaker). Whatever the interleaving, once everything has returned
+// the name belongs to the no-op breaker: later use never rejects — eight failing calls with the
+// coin at "drop", which a real breaker refuses from the 7th on — and no concurrent call is refused.
+func noBreakerScenario(name string, p int, outs ...int) vx.Scenario {
+	body := func() {
+		hook.pre, hook.post = false, false
+		breaker.VerifResetRegistry()
+		var wg vsched.WaitGroup
+		wg.Add(1)
+		vsched.GoNamed("nb", false, func() {
+			defer wg.Done()
+			vsched.Log("NB")
+			breaker.NoBreakerFor("named")
+			vsched.Log("NE")
+		})
+		for i, out := range outs {
+			i, out := i, out
+			wg.Add(1)
+			vsched.GoNamed(fmt.Sprintf("c%d", i), false, func() {
+				defer wg.Done()
+				vsched.Log("B %d", i)
+				var err error
+				func() {
+					defer func() { recover() }()
+					err = breaker.DoWithAcceptable("named", func() error {
+						vsched.Op("in-req")
+						switch out {
+						case oBad:
+							return errBad
+						case oPanic:
+							panic(panicVal)
+						}
+						return nil
+					}, func(err error) bool { return err == nil })
+				}()
+				vsched.Log("E %d %v", i, err == breaker.ErrServiceUnavailable)
+			})
+		}
+		wg.Wait()
+		hook.post = true // later use: the coin says drop
+		for k := 0; k < 8; k++ {
+			ran := false
+			err := breaker.Do("named", func() error { ran = true; return errBad })
+			vsched.Log("L %d %v %v", k, ran, err == errBad)
+		}
+		hook.post = false
+	}
+	check := func(e *vsched.Exec) vx.Verdict {
+		if g := vx.Guard(e); g != nil {
+			return *g
+		}
+		ne := -1
+		sig := make([]byte, len(outs))
+		later := 0
+		for pos, l := range e.Log() {
+			switch {
+			case l == "NE":
+				ne = pos
+			case strings.HasPrefix(l, "B "):
+				i, _ := strconv.Atoi(l[2:])
+				sig[i] = 'b' // began before NoBreakerFor returned
+				if ne >= 0 {
+					sig[i] = 'a'
+				}
+			case strings.HasPrefix(l, "E ") && strings.HasSuffix(l, " true"):
+				return vx.Verdict{Class: "rejected-below-threshold", Msg: "a first call on a name being registered with NoBreakerFor was rejected: " + l}
+			case strings.HasPrefix(l, "L "):
+				later++
+				if !strings.HasSuffix(l, " true true") {
+					return vx.Verdict{Class: "nobreaker-replaced:concurrent-first-use", Msg: fmt.Sprintf("after NoBreakerFor(name) raced %d first calls on the name (%s: a = began after it returned), later failing call %s was refused or altered: the name is registered to a real breaker", len(outs), sig, l)}
+				}
+			}
+		}
+		if ne < 0 || later != 8 {
+			return vx.Verdict{Class: "harness-log", Msg: "NoBreakerFor / later calls missing from the log"}
+		}
+		return vx.Verdict{Sig: string(sig)}
+	}
+	return vx.Scenario{Name: name, Body: body, Check: check, P: p, T: 0, SetBound: true}
+}
+
 func runSchedules(cfg *vlib.Config, r *vlib.Report) {
 	P := 2
 	if cfg.Thorough() {
@@ -312,6 +395,7 @@ func runSchedules(cfg *vlib.Config, r *vlib.Report) {
 	add("threshold-boundary-2", "threshold", false, P, 1,
 		thrSpec{E: en(bDo, cxNone), Out: oBad}, thrSpec{E: en(bDoFb, cxNone), Out: oBad, Sleep: 250 * time.Millisecond})
 	sc = append(sc, registryScenario("named-first-use-2", P+1, oBad, oOK), registryScenario("named-first-use-3", P, oBad, oBad, oPanic))
+	sc = append(sc, noBreakerScenario("nobreaker-vs-first-use-1", P+1, oBad), noBreakerScenario("nobreaker-vs-first-use-2", P, oBad, oOK))
 	if cfg.Thorough() {
 		add("stale-3", "throttling", true, P, 0,
 			thrSpec{E: en(bDo, cxNone), Out: oBad}, thrSpec{E: en(bDoFb, cxNone), Out: oOK}, thrSpec{E: en(bAllow, cxNone), Out: oBad})
@@ -322,6 +406,6 @@ func runSchedules(cfg *vlib.Config, r *vlib.Report) {
 	}
 	rule := "(A) history engine: explicit-state BFS over histories of calls (S/F through rotating entry points, bursts Sx10/Fx6/Fx60, coin answer drop/pass) and time jumps (1 ns .. 25 s incl. bucket/window boundaries +-1 ns) on the real breaker under a fake clock; a state is distinct by its canonical white-box dump (buckets by age, phase, lastPass age) + reference records, non-trivial when the window holds at least one record; in EVERY state every entry point x outcome x coin answer is probed one step ahead. " +
 		"(B) schedule engine: every interleaving within the preemption bound of 2-3 concurrent calls on a pre-loaded breaker, distinct by (scenario, verdict vector + coin answers). " +
-		"(C) wrappers: every status code 200-599 / gRPC code / listed error through the rest, zrpc, redis and sqlx wrappers, distinct by (wrapper, input)."
+		"(C) wrappers: every status code 200-599 / gRPC code / listed error through the rest, zrpc, redis and sqlx wrappers (sqlx: every query form of sqlconn.go x listed error x WithAcceptable on/off x {fake breaker, NewSqlConnFromDB, NewSqlConn}; redis dial hook; NoBreakerFor through every package-level entry point, also raced against concurrent first use in (B)), distinct by (wrapper, input)."
 	vx.Main(cfg, r, sc, vx.Bounds{P: 2, T: 0}, vx.Bounds{P: 3, T: 0}, rule)
 }
